@@ -49,6 +49,24 @@ CHECKS = {
  "C19": ("exhaustive (y,m,d) / shift / time-of-day grids per time zone (one worker process per TZ) against independent days-from-civil arithmetic",
          "Every triple of the grid is evaluated through date/addDate and all extractors inside the language in six zones; civil fields, weekday and Unix milliseconds are compared with an independent calendar computation; useTimezone/timeFormat/now/toDay likewise.",
          "Trusted: calendar arithmetic in checks/c19.go, Go zone tables for offsets only. Non-existent local midnights skipped and counted.", "C19"),
+ "C07": ("bounded-exhaustive program enumeration and operation histories against a store-passing reference evaluator plus a deep identity/content snapshot of caller data",
+         "Every program up to n nodes over locals, a field, literals, assignment, comma, arrays, recording calls and conditionals is run on five data configurations, every history of up to three pool programs on one runner, every forbidden assignment target; result, locals afterwards, host-call order and the frame condition are compared on each.",
+         "Trusted: reference evaluator in checks/c07.go. Arithmetic on non-numbers is tainted and not compared.", "C07"),
+ "C08": ("explicit exploration of operation histories (all ordered pairs, triples, quadruples over sub-pools) without state merging, each observation compared with a pristine-process baseline",
+         "Every history in the bound runs in one process state; each parse / evaluation / field analysis must observe exactly what the same operation observes alone in a fresh child process; shared trees are dumped before and after every operation; results handed back earlier must never change later.",
+         "Trusted: public-API tree dump; one child process per baseline. Clock functions excluded.", "C08"),
+ "C09": ("stateless model checking of the real code: cooperative scheduler with yield points injected by overlay, iterative preemption bounding (DFS over choice prefixes), plus a separate free-running race-detector pass",
+         "Every interleaving with at most b preemptions of 2-3 goroutines (evaluate / analyse a shared tree, parse, parse+format a bad text) at function-entry and shared-variable granularity is executed on the real package; each thread must observe its sequential result and shared trees must stay unchanged. A control scenario proves the scheduler interleaves inside evaluations. Leg B samples free-running schedules under -race.",
+         "Trusted: internal/sched, vinstr yield injection, Go race detector. Data races between yield points are only covered by the sampled leg B.", "C09"),
+ "C10": ("bounded-exhaustive formula enumeration against an independent field collector over the reference tree, plus a sufficiency oracle by restricted/perturbed re-evaluation",
+         "Every formula up to n nodes (and every accepted token sequence up to 5 tokens over the analysis alphabet) is analysed by the real code and by a collector walking the reference tree; set inclusion both ways, duplicates, refusals, the non-local variant and sufficiency on two data maps are checked on each.",
+         "Trusted: reference parser and collector. Pure assignment targets may or may not be reported.", "C10"),
+ "C11": ("exhaustive exploration of synthesised signatures x argument lists against a partial conversion specification; every invocation recorded",
+         "Every signature in the family (reflect.FuncOf/MakeFunc) is called with every argument list up to n+2 arguments, with and without spread; invoked-exactly-once-or-not-at-all, received values, context identity, result normalisation and error propagation over all subsets of failing call sites are checked.",
+         "Trusted: table written from the statement; unspecified cells only require no panic and at most one invocation.", "C11"),
+ "C20": ("explicit-state exploration of runner operation histories in lock-step with a plain-map reference model: all histories to depth d unmerged, breadth-first with state merging and differential probes to depth 7+",
+         "Every history over a 22-operation menu up to depth d is replayed on a fresh real runner and compared step by step with the model (results, gets, every caller-visible map); merged search adds depth and checks that a state reached two ways answers all probes alike.",
+         "Trusted: model in checks/c20.go.", "C20"),
 }
 PENDING_REASON = "check not built yet in this phase (planned: bounded-exhaustive enumeration per DESIGN.md); will be claimed once its check runs green"
 
